@@ -20,6 +20,7 @@ STYPE = {"DESC": 0, "FLOW": 1, "AGGREGATE": 2, "TABLE": 3, "PORT": 4, "QUEUE": 5
          "VENDOR": 0xffff}
 STNAME = {v: k for k, v in STYPE.items()}
 XID_POOL = [0, 1, 2, 0x7fffffff, 0x80000000, 0xfffffffe, 0xffffffff]
+ECHO_SIZES = [1, 8, 64, 300, 65527]   # 65527 + header = the largest OpenFlow message
 PROBE_XID = 0x0c130000        # xids of the harness's own probes
 
 
@@ -51,7 +52,7 @@ class Adapter(object):
     self.badcmd = rnd.choice([5, 9, 0xffff])
     self.badstat = rnd.choice([6, 7, 0x1234, 0xfffe])
     self.badtype = rnd.choice([22, 23, 100, 255])
-    self.echo_b1 = bytes(rnd.randrange(256) for _ in range(rnd.choice([1, 8, 64, 300, 65527])))
+    self.echo_b1 = rnd.randbytes(rnd.choice(ECHO_SIZES))
     # snapshot of the switch state at the moment a BARRIER_REPLY is written
     self.snaps = []
     self.snap_error = None
@@ -350,7 +351,9 @@ class Adapter(object):
       # first step in, so that the symbol -> xid mapping differs between behaviours
       self.started = True
       if not self.xmap:
-        random.Random("%s|%s|%s" % (self.seed, a, sorted((args or {}).items()))).shuffle(self.xpool)
+        r2 = random.Random("%s|%s|%s" % (self.seed, a, sorted((args or {}).items())))
+        r2.shuffle(self.xpool)
+        self.echo_b1 = r2.randbytes(r2.choice(ECHO_SIZES))
     if a == "Rx":
       self.reqs = []
       esc = None
